@@ -501,6 +501,15 @@ func (s *Spec[T]) shardedRun(tier string, rep *Report) {
 					rep.Cap(fmt.Sprintf("shard %d died outside a case (%v): %s", sh, err, trunc(string(lb), 300)))
 					return
 				}
+				if len(strings.TrimSpace(string(lb))) == 0 {
+					// killed from outside without a word (the kernel's out-of-memory killer, an operator): nothing the code under
+					// test printed, so nothing to attribute to it. The case is left out and reported as a cap.
+					rep.Cap(fmt.Sprintf("shard %d was killed without output (%v; out of memory?) while running a case; the case is left out: %s", sh, err, trunc(key, 200)))
+					skipKeys = append(skipKeys, key)
+					kb, _ := json.Marshal(skipKeys)
+					os.WriteFile(skipFile, kb, 0o644)
+					continue
+				}
 				fatalMu.Lock()
 				site := fatalSite(string(lb))
 				rep.mu.Lock()
